@@ -46,7 +46,7 @@ class CommandRun:
     def __init__(self, repo, *, cls_name="GCodeBuilder", tier="quick", pins=None, transform="identity",
                  max_dev="tier", sign_mode="bool", methods=None, exclude=(), event_funcs=(), with_invalid=True,
                  point_variants=("none", "point"), per_path_setup=None, cm_body=("pass",), max_paths=400000,
-                 nanable=None, jobs=None, loop_unroll=None):
+                 nanable=None, jobs=None, loop_unroll=None, pin_halt=True):
         self.repo = str(repo)
         self.cls_name = cls_name
         self.tier = tier
@@ -70,7 +70,7 @@ class CommandRun:
         # commands the halt mode is OFF.  While it is inductive the worlds
         # start from OFF; as soon as one path breaks it, everything is redone
         # from an arbitrary halt mode.
-        self.pin_halt = cls_name == "GCodeBuilder"
+        self.pin_halt = pin_halt and cls_name == "GCodeBuilder"
         self.halt_note = None
 
     # ------------------------------------------------------------ world (per process)
@@ -102,7 +102,7 @@ class CommandRun:
             f = pub[n]
             choices = W.arg_choices(f, with_invalid=self.with_invalid, point_variants=self.point_variants)
             for i, ctx in enumerate(product_contexts(choices)):
-                bodies = self.cm_body if f.is_contextmanager else (None,)
+                bodies = self.cm_body if is_cm_command(W, f) else (None,)
                 for b in bodies:
                     out.append((n, i, b))
         return out
@@ -127,7 +127,7 @@ class CommandRun:
 
         def entry(I, _):
             v = W.call_entry(I, f, ctx)
-            if f.is_contextmanager:
+            if is_cm_command(W, f):
                 return run_cm(I, v, body)
             return v
 
@@ -208,6 +208,27 @@ class CommandRun:
         self.program = W0.P
         self.world = W0
         return results
+
+
+def is_cm_command(W, f, depth=0) -> bool:
+    """A command used in a with statement: decorated with @contextmanager, or one that only
+    returns what such a method of its own class returns (`return self._scope(...)`)."""
+    import ast as _ast
+    if f.is_contextmanager:
+        return True
+    if depth > 3:
+        return False
+    rets = [n for n in _ast.walk(f.node) if isinstance(n, _ast.Return)]
+    if not rets:
+        return False
+    for r in rets:
+        c = r.value
+        if not (isinstance(c, _ast.Call) and isinstance(c.func, _ast.Attribute) and isinstance(c.func.value, _ast.Name) and c.func.value.id == "self"):
+            return False
+        g = W.cls.lookup(c.func.attr)
+        if g is None or not is_cm_command(W, g, depth + 1):
+            return False
+    return True
 
 
 HALT_FIELD = "state._current_halt_mode"
